@@ -482,11 +482,13 @@ def run_check(ck):
     common.setup_impl_env()
     impl = Impl()
     ck.run_witnesses(["w14", "w17"])
-    ck.prove(extra_targets=["Bridge/BridgeQuery.v"],
+    ck.prove(extra_targets=["Bridge/BridgeQuery.v", "Bridge/BridgeQueryInterp.v"],
              gen_kernels=["query_header", "QString.check", "QInteger.check", "QFunction.check", "QDict.check",
                           "QList.check", "QVariable.check", "qtypes", "_parse_token", "parse_methods", "parse",
                           "create_namespace", "get_return", "_verify_variable_is_type", "q2_typecheck",
-                          "q2_function", "interpreter_text", "query_footer"])  # tie B: translate/k_query.py
+                          "q2_function", "query_footer",                         # tie B: translate/k_query.py
+                          "interp_header", "registry_sites", "interpret_methods", "interpret_stmt", "query_run",
+                          "interp_footer"])                  # tie B, interpreter side: translate/k_query_interp.py
     have_driver = ck.driver()
 
     quick = ck.tier == "quick"
